@@ -2,15 +2,47 @@
    codes: 0 ok; 1 a faulty design was accepted by an entry point; 9 the mutant is not faulty by the
    specification (not counted as a case); 10 the *valid* base design is not valid by the specification. *)
 Require Import Hdl21.Base.PyInt Hdl21.Base.Design Hdl21.Spec.WfDesign Hdl21.Spec.Nets Hdl21.Corr.C03 Hdl21.Corr.C06.
+Require Import Hdl21.Model.Checks Hdl21.Model.C02Checks.
+
+(* the tie of Model/C02Checks.v to the implementation: on the fragment the model claims (and under the givens of
+   Props/C02.v theorem 10) the model accepts exactly when the implementation does; code 2 otherwise *)
+Definition tied (d : design) : bool := frag d && given d.
+Definition tie (d : design) (impl : bool) : bool := negb (tied d) || Bool.eqb (model_accepts d) impl.
 
 (* impl_accepts: did any of the three entry points return normally? *)
 Definition chk_c02 (c : design * bool) : Z :=
   let '(d, impl_accepts) := c in
   match wf_design d with
+  | Ok _ => if tie d impl_accepts then 9 else 2
+  | Error _ => if impl_accepts then 1 else if tie d impl_accepts then 0 else 2
+  end.
+
+(* error class of the specification, plus 500 when the case is in the tied fragment *)
+Definition fault_class (c : design * bool) : Z :=
+  match wf_design (fst c) with Ok _ => 0 | Error e => err_code e end + (if tied (fst c) then 500 else 0).
+Definition classes (l : list (design * bool)) : list (Z * Z) := number_from 0 fault_class l.
+
+(* ---- bundle designs (Spec/C02BundleWf.v) ---- *)
+Require Import Hdl21.Spec.C02BundleWf.
+
+Definition chk_c02b (c : bdesign * bool) : Z :=
+  let '(d, impl_accepts) := c in
+  match bwf_design d with
   | Ok _ => 9
   | Error _ => if impl_accepts then 1 else 0
   end.
+Definition fault_class_b (c : bdesign * bool) : Z :=
+  match bwf_design (fst c) with Ok _ => 0 | Error e => err_code e end.
+Definition classes_b (l : list (bdesign * bool)) : list (Z * Z) := number_from 0 fault_class_b l.
 
-Definition fault_class (c : design * bool) : Z :=
-  match wf_design (fst c) with Ok _ => 0 | Error e => err_code e end.
-Definition classes (l : list (design * bool)) : list (Z * Z) := number_from 0 fault_class l.
+(* ---- the unmutated base designs: valid by the specification, and then the implementation must accept them
+   at all three entry points (guards against a check that is satisfied by rejecting everything).
+   second component: did ALL entry points return normally?   10: valid design rejected; 11: generator produced
+   a base design the specification calls faulty *)
+Definition chk_base (c : design * bool) : Z :=
+  match wf_design (fst c) with Ok _ => if snd c then (if tie (fst c) true then 0 else 2) else 10 | Error _ => 11 end.
+Definition chk_base_b (c : bdesign * bool) : Z :=
+  match bwf_design (fst c) with Ok _ => if snd c then 0 else 10 | Error _ => 11 end.
+
+(* one evaluation for both numbers: code * 1000 + error class, for every case *)
+Definition both {A} (f g : A -> Z) (l : list A) : list (Z * Z) := number_from 0 (fun c => f c * 1000 + g c) l.
